@@ -17,7 +17,7 @@ ASSUMPTIONS = ["a removed key may read as 'raises' or as None (both are absence)
                "well-formed histories only (model preconditions on the expected view)"]
 SHARD_TIMEOUT = {"quick": 900, "thorough": 5400}
 
-UNIVERSE = ["a", "a/b", "a/b/c.txt", "a/d.txt", "a/b.txt", "e.txt", "f", "f/g.json", "f/h"]
+UNIVERSE = ["a", "a/b", "a/b/c.txt", "a/c.txt", "a/d.txt", "a/b.txt", "e.txt", "f", "f/g.json", "f/h", "f/h/g.json"]
 COMBOS = ["memory|memory", "file|memory", "memory|file", "file|file"]
 
 
@@ -97,7 +97,9 @@ def run_shard(spec):
             fbh = SM.gen_history(rnd, fbm, UNIVERSE, rnd.randint(1, 6),
                                  weights={"store": 5, "makedir": 2}, tag="fb")
             model = fbm.clone()
-            hist = SM.gen_history(rnd, model, UNIVERSE, rnd.randint(8, 30), tag="ov")
+            hist = SM.gen_history(rnd, model, UNIVERSE, rnd.randint(8, 30), tag="ov",
+                                  weights={"store": 6, "store_rmw": 2, "store_metadata": 2, "store_metadata_rmw": 2, "remove": 4,
+                                           "makedir": 2, "removedir": 2, "removedir_recursive": 2, "store_metadata_absent": 2})
             fbkeys = set(fbm.files) | set(fbm.dirs)
             for o in hist:
                 counters["opkind." + o[0]] = counters.get("opkind." + o[0], 0) + 1
